@@ -506,6 +506,10 @@ func c14Random(rng *Rng, stats *Stats, idx int) *c14Case {
 		if len(edges) > 0 {
 			e := edges[rng.Intn(len(edges))]
 			c.add("toseg %d,%d %d", e.s, e.e, e.id)
+			// ill-formed shapes: surplus edges, missing edges, no nodes
+			c.add("toseg %d,%d %d,%d,%d", e.s, e.e, e.id, e.id+1, e.id+2)
+			c.add("toseg %d,%d,%d,%d %d", e.s, e.e, e.s, c14PickID(rng, pool), e.id)
+			c.add("toseg - %d", e.id)
 		}
 	}
 	// triple-store traversals (kept small; maxDepth <= 0 only on acyclic graphs and never with `both`)
